@@ -42,3 +42,14 @@ claim(
     TB, "typestate/linearity rules over MIR: who-may-write, who-may-call, balanced-pair counting on enumerated paths, sink analysis",
     "DESIGN.md §2 C13",
 )
+claim(
+    "C05", "other",
+    "Bookkeeping discipline of the one place that computes the state layout, and size agreement of its consumers: the `self`-cell "
+    "size function agrees variant by variant with word_size; WASM scratch reservations derived from word_size are never reduced; in "
+    "every layout concatenation of the MIR generator parts are listed in the order they take effect (calls by call position, a "
+    "fresh cell by the position of its accessing instruction); every emitted PushStateOffset is accounted in the sum popped at "
+    "function exit; only push/pop/reset write the run-time cursor; the VM sizes state storage from the skeleton before executing. "
+    "Run-time equality of cursor and layout offsets, and VM/WASM state-word equality, are not decided.",
+    TB, "per-variant template comparison of sibling size functions, event-order analysis of symbolic paths, pairing/accounting rule, who-may-write",
+    "DESIGN.md §2 C05",
+)
